@@ -457,7 +457,8 @@ func c09Eval(rc *sim.RunCtx) {
 		if s.Killed() {
 			return
 		}
-		r2, _, e2 := ev.Run(context.Background(), []byte("return 7"))
+		// (callbacks on pooled and plain child VMs, and through a stdlib function, work again in the session)
+		r2, _, e2 := ev.Run(context.Background(), []byte("zf := func(x) { return x + 1 }\nzr := [call(zf, 1), call(zf, 2), call(zf, 3), import(\"strings\").Map(func(c) { return c + 1 }, \"ab\")]\nreturn zr == [2, 3, 4, \"bc\"] ? 7 : zr"))
 		follow = sim.MakeOutcome(r2, e2, nil).String()
 	})
 	canceller := s.Go("canceller", func() {
